@@ -254,6 +254,10 @@ def neval(e: ast.AST, env: Dict[str, object]):
       return -v
     if isinstance(e.op, ast.Not):
       return not v
+  if isinstance(e, ast.Call) and '__callhook__' in env:
+    r = env['__callhook__'](e, env)
+    if r is not NotImplemented:
+      return r
   if isinstance(e, ast.Call) and isinstance(e.func, ast.Name) and e.func.id in ('abs', 'min', 'max', 'float', 'int') and not e.keywords:
     return {'abs': abs, 'min': min, 'max': max, 'float': float, 'int': int}[e.func.id](*[neval(a, env) for a in e.args])
   if isinstance(e, ast.Compare):
@@ -264,6 +268,11 @@ def neval(e: ast.AST, env: Dict[str, object]):
         ok = (l is r) if isinstance(op, ast.Is) else (l is not r)
       elif isinstance(op, (ast.Eq, ast.NotEq)):
         ok = (l == r) if isinstance(op, ast.Eq) else (l != r)
+      elif isinstance(op, (ast.In, ast.NotIn)):
+        try:
+          ok = (l in r) if isinstance(op, ast.In) else (l not in r)
+        except TypeError:
+          raise NoValue(key)
       else:
         try:
           ok = {ast.Lt: lambda: l < r, ast.LtE: lambda: l <= r, ast.Gt: lambda: l > r, ast.GtE: lambda: l >= r}[type(op)]()
@@ -274,8 +283,80 @@ def neval(e: ast.AST, env: Dict[str, object]):
       l = r
     return True
   if isinstance(e, ast.BoolOp):
-    vs = [neval(v, env) for v in e.values]
-    return all(vs) if isinstance(e.op, ast.And) else any(vs)
+    # short-circuit, python value semantics
+    v = None
+    for x in e.values:
+      v = neval(x, env)
+      if (isinstance(e.op, ast.And) and not v) or (isinstance(e.op, ast.Or) and v):
+        return v
+    return v
   if isinstance(e, ast.IfExp):
     return neval(e.body, env) if neval(e.test, env) else neval(e.orelse, env)
+  if isinstance(e, (ast.Set, ast.List)):
+    return [neval(x, env) for x in e.elts] if isinstance(e, ast.List) else {neval(x, env) for x in e.elts}
   raise NoValue(key)
+
+
+class _Ret(Exception):
+
+  def __init__(self, v):
+    self.v = v
+
+
+def method_hook(methods: Dict[str, ast.AST], depth: int = 0):
+  """Call hook for `neval`: `self._m(args)` / `_m(args)` naming a loop-free function of `methods` is interpreted on
+  the caller's environment with the parameters bound to the argument values."""
+  def hook(c: ast.Call, env: Dict[str, object]):
+    f = c.func
+    name = f.attr if isinstance(f, ast.Attribute) and isinstance(f.value, ast.Name) and f.value.id in ('self', 'cls') else \
+        f.id if isinstance(f, ast.Name) else None
+    if name not in methods or depth > 4 or c.keywords:
+      return NotImplemented
+    callee = methods[name]
+    params = [a.arg for a in callee.args.args if a.arg not in ('self', 'cls')]
+    if len(params) != len(c.args):
+      return NotImplemented
+    inner = {k: v for k, v in env.items() if k.startswith(('self.', '__'))}
+    for p_, a in zip(params, c.args):
+      # attribute paths of an argument stay visible under the parameter's name
+      akey = unparse(a, 0)
+      for k, v in env.items():
+        if k == akey or k.startswith(akey + '.'):
+          inner[p_ + k[len(akey):]] = v
+      if akey not in env:
+        try:
+          inner[p_] = neval(a, env)
+        except NoValue:
+          pass
+    inner['__callhook__'] = method_hook(methods, depth + 1)
+    return run_concrete(callee, inner)
+  return hook
+
+
+def run_concrete(fn: ast.AST, env: Dict[str, object]):
+  """Interprets a loop-free function body (assignments to names, if/else, return, bare expressions) on a concrete
+  environment (unparsed expression -> value) with `neval`; returns the returned value.  NoValue if the body leaves
+  that fragment or an expression cannot be evaluated."""
+  env = dict(env)
+
+  def block(stmts):
+    for st in stmts:
+      if isinstance(st, ast.Return):
+        raise _Ret(neval(st.value, env) if st.value is not None else None)
+      if isinstance(st, ast.If):
+        block(st.body if neval(st.test, env) else st.orelse)
+      elif isinstance(st, ast.Assign) and len(st.targets) == 1 and isinstance(st.targets[0], ast.Name):
+        env[st.targets[0].id] = neval(st.value, env)
+      elif isinstance(st, ast.AnnAssign) and isinstance(st.target, ast.Name) and st.value is not None:
+        env[st.target.id] = neval(st.value, env)
+      elif isinstance(st, ast.Expr) and isinstance(st.value, ast.Constant):
+        continue
+      elif isinstance(st, ast.Pass):
+        continue
+      else:
+        raise NoValue(f'statement {type(st).__name__} at line {getattr(st, "lineno", "?")}')
+  try:
+    block(fn.body)
+  except _Ret as r:
+    return r.v
+  return None
